@@ -29,7 +29,19 @@ OBLIGATIONS = [
        bound='capacity 4, tags from a universe of 8 distinct values (symbolic high 61 bits), 1-character strings, arbitrary hash',
        variants=[{'OP': k} for k in range(4)], unwind=10, timeout=400, mem_gb=10, real=False,
        callrename={'_ZN5gdstk8StyleMap3setEmPKc': {'_ZN5gdstk8StyleMap6resizeEm': 'tab_resize_from_add'}}),
+    Ob('property_list_step', 'C20/props.c', ['w_prop_remove', 'w_prop_get', 'w_prop_set_u64', 'w_prop_copy', 'w_prop_clear'],
+       what='property lists: remove_property (first / all), get_property, set_property (create_new both ways), properties_copy + properties_clear on an arbitrary list equal the ordered-multimap model',
+       bound='lists of 0..3 properties, names 1 character from {a,b,c} (all equality patterns), one unsigned value each',
+       variants=[{'OP': o, 'LEN': n} for o in range(4) for n in range(4)], unwind=6, timeout=200),
+    Ob('sort_small', 'C20/sort.c', ['w_insertion_sort', 'w_heap_sort', 'w_sort', 'w_partition', 'w_sort_default'], ir='ni',
+       what='insertion_sort, heap_sort (sift_down/leaf_search), sort() and partition on every array of N elements under any ordering on 8 key values: ordered permutation; partition point strictly inside with left <= right',
+       bound='N = 0..6 (partition 3..6), keys -4..3 (all tie patterns), unique ids',
+       variants=[{'ALG': a, 'N': n} for a in (0, 1, 2, 4) for n in (0, 1, 2, 3, 5, 6)] + [{'ALG': 3, 'N': n} for n in (3, 4, 5, 6)], unwind=9, timeout=300, mem_gb=8),
+    Ob('array_step', 'C20/array.c', ['w_arr_append', 'w_arr_insert', 'w_arr_remove', 'w_arr_remove_unordered', 'w_arr_remove_item', 'w_arr_index', 'w_arr_contains', 'w_arr_extend', 'w_arr_copy_from', 'w_arr_ensure_slots', 'w_arr_clear'],
+       what='Array<int64_t>: append / insert / remove / remove_unordered / index / contains / remove_item / copy_from / extend / ensure_slots / clear equal the C-array model',
+       bound='arrays of 0..3 elements (values -2..2), capacity equal to count (forces growth) or 4',
+       variants=[{'OP': o, 'CNT': c, 'CAPA': k} for o in range(6) for (c, k) in ((0, 0), (1, 1), (3, 3), (3, 4), (2, 4)) if not (o in (2, 3, 5) and c == 0)], unwind=9, timeout=200),
 ]
-BOUNDS = ''
-OUTSIDE = ''
+BOUNDS = 'hash tables: capacity 4 (one inductive step from every valid table; growth as its own step by contract), property lists 0..3 entries, sorting kernels N <= 6, arrays <= 3 elements'
+OUTSIDE = 'tables larger than capacity 4 in one query (covered by induction over the invariant only); multi-character keys; intro_sort regimes above 16 elements (thorough tier, by contract); Array::extend/copy_from with an empty NULL source calls memcpy(NULL, NULL, 0) - flagged by CBMC and UBSan nonnull checks, harmless, not part of the property; Set/TagMap/StyleMap copy_from/resize/to_array'
 ASSUMPTIONS = ['malloc never fails', 'hash functions replaced by arbitrary functions (a proof for every hash function covers FNV-1a)']
